@@ -592,6 +592,13 @@ Definition loc_rib (t : table) (mx : option N) : list change :=
                          c_any_changed := true; c_replaced := None; c_paths := ps |}]
               end) (t_dests t).
 
+(* Table::end_deferral: one change per destination, an empty path list for a
+   destination with no eligible path *)
+Definition all_dests (t : table) : list change :=
+  map (fun nd => {| c_net := fst nd; c_dest_id := d_id (snd nd); c_best_changed := true;
+                    c_any_changed := true; c_replaced := None; c_paths := elig_list (snd nd) |})
+      (t_dests t).
+
 Definition set_deferring (t : table) (b : bool) : table :=
   {| t_deferring := b; t_dests := t_dests t; t_used := t_used t; t_stats := t_stats t;
      t_flags := t_flags t; t_ctrs := t_ctrs t; t_shard := t_shard t; t_bad := t_bad t |}.
@@ -629,6 +636,12 @@ Inductive op :=
 | StartDeferral
 | EndDeferral.
 
+(* while the family is deferring (Restarting Speaker mode) the table is updated
+   but no mutator hands a change to the distribution layer; end_deferral reports
+   the final state of every destination *)
+Definition quiet (t : table) (cs : list change) : list change :=
+  if t_deferring t then [] else cs.
+
 Definition step (t : table) (o : op) : table * list change * bool (* limit exceeded *) :=
   match o with
   | Insert s net rpid nh a f i lim =>
@@ -639,14 +652,14 @@ Definition step (t : table) (o : op) : table * list change * bool (* limit excee
       end
   | Remove s net rpid ctr =>
       match remove t s net rpid ctr with
-      | (t', Some c) => (t', [c], false)
+      | (t', Some c) => (t', quiet t [c], false)
       | (t', None) => (t', [], false)
       end
-  | Drop k addr ctr => let '(t', cs) := drop_op t k addr ctr in (t', cs, false)
-  | Restale llgr addr => let '(t', cs) := restale_op t llgr addr in (t', cs, false)
-  | NhValidity nh r => let '(t', cs) := nhv_op t nh r in (t', cs, false)
+  | Drop k addr ctr => let '(t', cs) := drop_op t k addr ctr in (t', quiet t cs, false)
+  | Restale llgr addr => let '(t', cs) := restale_op t llgr addr in (t', quiet t cs, false)
+  | NhValidity nh r => let '(t', cs) := nhv_op t nh r in (t', quiet t cs, false)
   | StartDeferral => (set_deferring t true, [], false)
-  | EndDeferral => (set_deferring t false, loc_rib (set_deferring t false) None, false)
+  | EndDeferral => (set_deferring t false, all_dests t, false)
   end.
 
 Definition empty_table (shard : N) : table :=
